@@ -152,7 +152,28 @@ def hasWithLikeL : List Stmt → Bool
   | s :: ss => s.hasWithLike || (match ss with | s2 :: _ => isWithLike s s2 | [] => false) || hasWithLikeL ss
 end
 
+/-! ### a declared property as loop variable (open findings F151, F152)
+
+The assignment to a declared property is a `PropertyAccessorOperation` whose `.name` is the constant `accessor`; the loop detection
+compares and prints `.name`: `repeat with <prop> in l` is printed `repeat with accessor in l` (F151) and `repeat with <prop> = a to b`
+is not recognised and stays in its lowered form `set / repeat while / set` (F152). Locals, parameters and globals are exact. -/
+
+mutual
+def Stmt.propLoopVar : Stmt → Bool
+  | .tell _ b => propLoopVarL b
+  | .repeatWhile _ b => propLoopVarL b
+  | .repeatWith (.var .prop _) _ _ _ _ => true
+  | .repeatWith _ _ _ _ b => propLoopVarL b
+  | .repeatIn (.var .prop _) _ _ => true
+  | .repeatIn _ _ b => propLoopVarL b
+  | .ifThen _ t e => propLoopVarL t || propLoopVarL e
+  | _ => false
+def propLoopVarL : List Stmt → Bool
+  | [] => false
+  | s :: ss => s.propLoopVar || propLoopVarL ss
+end
+
 /-- `Supported`: the domain of `C03_partial` (empty bodies are inside it) -/
-def C03Supported (body : List Stmt) : Bool := (exitClasses body).isEmpty && !hasWithLikeL body
+def C03Supported (body : List Stmt) : Bool := (exitClasses body).isEmpty && !hasWithLikeL body && !propLoopVarL body
 
 end Drx.Spec
